@@ -1844,7 +1844,6 @@ func (fc *fnCtx) sliceOp(st *State, fr *frame, ins *ssa.Slice) {
 			hi = fc.val(st, ins.High).T
 		}
 		fc.runtimeCheck(st, fr, ins, "slice", fmt.Sprintf("(or (< %s 0) (> %s %s) (> %s (str_len %s)))", lo, lo, hi, hi, x.T))
-		fc.declareFun(st, "str_sub", "(Str Int Int) Str")
 		d := fc.define(st, ins, app("str_sub", x.T, lo, hi))
 		st.pc = append(st.pc, eq(app("str_len", d.T), app("-", hi, lo)))
 	default:
